@@ -123,8 +123,9 @@ def prefix_sid(tokeniser: Any) -> PrefixSid:  # noqa: C901
     except Exception as e:
         raise ValueError(f'could not parse BGP PrefixSid attribute: {e}') from None
 
-    if int(label_sid) < pow(2, 32):
-        sr_attrs.append(SrLabelIndex.make_labelindex(int(label_sid)))
+    if not 0 <= int(label_sid) < pow(2, 32):
+        raise ValueError(f'could not parse BGP PrefixSid attribute: label index {label_sid} is not a 32 bits number')
+    sr_attrs.append(SrLabelIndex.make_labelindex(int(label_sid)))
 
     for srgb in srgb_data:
         if len(srgb) == SRGB_TUPLE_SIZE and int(srgb[0]) < pow(2, 24) and int(srgb[1]) < pow(2, 24):
